@@ -1,4 +1,11 @@
 P = __file__.rsplit("/units/", 1)[0] + "/prelude/"
+import importlib.util, os
+_p = os.path.join(os.path.dirname(__file__), "c06_threshold_player_step.py")
+_s = importlib.util.spec_from_file_location("unit_c06_threshold_player_step_for_loop", _p); _m = importlib.util.module_from_spec(_s); _s.loader.exec_module(_m)
+# the vocabulary of the decision-node arm's contract (pnext_ok, sel_ok, added_ok) is the text of the unit that proves it
+_PN = [it["raw"] for it in _m.UNIT["items"] if "raw" in it and "pub open spec fn pnext_ok" in it["raw"]][0]
+_SEL = [it["raw"] for it in _m.UNIT["items"] if "raw" in it and "pub open spec fn sel_ok" in it["raw"]][0]
+_SEL = _SEL[:_SEL.index("#[verifier::external_body] pub struct AtomicF64")] if "#[verifier::external_body] pub struct AtomicF64" in _SEL else _SEL
 SPEC = r"""
 use std::mem;
 pub type Item<'a> = (&'a Node, f64, [f64; 2]);
@@ -45,6 +52,7 @@ pub proof fn ax_additive()
     ensures
         forall|ch: Chance, pc: real, p1: real, p2: real| #[trigger] vf(Node::Chance(ch), pc, p1, p2) == csum(ch, pc, p1, p2, outcomes_of(ch).len() as int),
         forall|pl: Player, pc: real, p1: real, p2: real| #[trigger] vf(Node::Player(pl), pc, p1, p2) == psum(pl, pc, p1, p2, pl.actions@.len() as int),
+        forall|n: Node, pc: real, p1: real, p2: real| #[trigger] vf(n, pc, p1, p2) >= 0,
 { }
 
 pub open spec fn ival(e: Item) -> int { vf(*e.0, rv(e.1), rv(e.2[0]), rv(e.2[1])) }
@@ -104,13 +112,48 @@ pub proof fn lemma_tsum_ext(w0: Seq<Item>, w1: Seq<Item>, n: int, f: spec_fn(int
     }
 }
 
-// ---- the two expanding arms, by the contracts proved for their real text in c06_threshold_player_step
-pub open spec fn pnext_ok(num: PlayerNum, p_player: [f64; 2], prob: f64, p_next: [f64; 2]) -> bool {
-    match num {
-        PlayerNum::One => rv(p_next[0]) == rv(p_player[0]) * rv(prob) && p_next[1] == p_player[1],
-        PlayerNum::Two => p_next[0] == p_player[0] && rv(p_next[1]) == rv(p_player[1]) * rv(prob),
+pub proof fn lemma_tsum_nonneg(q: Seq<Item>)
+    ensures tsum(q) >= 0
+    decreases q.len()
+{ ax_additive(); if q.len() > 0 { lemma_tsum_nonneg(q.drop_last()); } }
+// partial sums of non-negative terms grow
+pub proof fn lemma_g_mono(f: spec_fn(int) -> int, g: spec_fn(int) -> int, n: int, a: int, b: int)
+    requires 0 <= a <= b <= n, forall|k: int| 0 <= k < n ==> #[trigger] f(k) >= 0,
+        forall|k: int| 0 < k <= n ==> #[trigger] g(k) == g(k - 1) + f(k - 1),
+    ensures g(a) <= g(b)
+    decreases b - a
+{ if a < b { lemma_g_mono(f, g, n, a, b - 1); } }
+pub open spec fn sel_bound(idx: Seq<int>) -> int { if idx.len() == 0 { 0 } else { idx.last() + 1 } }
+// a list that grew by the entries of a SELECTION of positions (strictly increasing), whose values are
+// given position-wise and are non-negative: it grew by at most the full sum
+pub proof fn lemma_tsum_sel(w0: Seq<Item>, w1: Seq<Item>, idx: Seq<int>, n: int, f: spec_fn(int) -> int, g: spec_fn(int) -> int)
+    requires
+        n >= 0, sel_ok(idx, n), w1.len() == w0.len() + idx.len(), w1.take(w0.len() as int) == w0,
+        forall|j: int| 0 <= j < idx.len() ==> ival(#[trigger] w1[w0.len() + j]) == f(idx[j]),
+        forall|k: int| 0 <= k < n ==> #[trigger] f(k) >= 0,
+        g(0) == 0, forall|k: int| 0 < k <= n ==> #[trigger] g(k) == g(k - 1) + f(k - 1),
+    ensures tsum(w1) <= tsum(w0) + g(sel_bound(idx)), 0 <= sel_bound(idx) <= n, tsum(w1) <= tsum(w0) + g(n),
+    decreases idx.len()
+{
+    if idx.len() == 0 { assert(w1 =~= w0); lemma_g_mono(f, g, n, 0, n); }
+    else {
+        let w1p = w1.drop_last();
+        let ip = idx.drop_last();
+        let m = idx.len() - 1;
+        assert(w1p.take(w0.len() as int) =~= w0);
+        assert(forall|j: int| 0 <= j < ip.len() ==> (#[trigger] w1p[w0.len() + j]) == w1[w0.len() + j]);
+        assert(forall|j: int| 0 <= j < ip.len() ==> #[trigger] ip[j] == idx[j]);
+        lemma_tsum_sel(w0, w1p, ip, n, f, g);
+        assert(w1.last() == w1[w0.len() + m]);
+        let last = idx[m];
+        assert(sel_bound(ip) <= last) by { if ip.len() > 0 { assert(ip.last() == idx[m - 1]); assert(idx[m - 1] < idx[m]); } }
+        lemma_g_mono(f, g, n, sel_bound(ip), last);
+        assert(g(last + 1) == g(last) + f(last));
+        lemma_g_mono(f, g, n, last + 1, n);
     }
 }
+
+// ---- the two expanding arms, by the contracts proved for their real text in c06_threshold_player_step
 #[verifier::external_body]
 pub fn __chance_arm<'a>(chance_infosets: &ChanceTables, chance: &'a Chance, p_chance: f64, p_player: [f64; 2], work: &mut Vec<Item<'a>>)
     ensures
@@ -127,20 +170,13 @@ pub fn __player_arm<'a, 'b>(player: &'a Player, p_chance: f64, p_player: [f64; 2
         (match player.num { PlayerNum::One => old(player_infosets)[0]@, PlayerNum::Two => old(player_infosets)[1]@ })[player.infoset as int].strat@.len() == player.actions@.len(),
     ensures
         tabs(*final(player_infosets)) == tabs(*old(player_infosets)),
-        final(work)@.len() == old(work)@.len() + player.actions@.len(),
-        final(work)@.take(old(work)@.len() as int) == old(work)@,
-        forall|a: int| 0 <= a < player.actions@.len() ==> (#[trigger] final(work)@[old(work)@.len() + a]).0 == &player.actions@[a]
-            && final(work)@[old(work)@.len() + a].1 == p_chance
-            && pnext_ok(player.num, p_player, (match player.num { PlayerNum::One => old(player_infosets)[0]@, PlayerNum::Two => old(player_infosets)[1]@ })[player.infoset as int].strat@[a],
-                        final(work)@[old(work)@.len() + a].2),
+        exists|idx: Seq<int>| #[trigger] sel_ok(idx, player.actions@.len() as int)
+            && added_ok(old(work)@, final(work)@, idx, player, (match player.num { PlayerNum::One => old(player_infosets)[0]@, PlayerNum::Two => old(player_infosets)[1]@ })[player.infoset as int].strat@, p_chance, p_player),
 { unimplemented!() }
 // documented allocation limit of Vec (never more than isize::MAX bytes; an Item is 32 bytes)
 #[verifier::external_body]
 pub proof fn ax_vec_len<'a>(v: &Vec<Item<'a>>) ensures v@.len() * 32 <= isize::MAX { }
 
-pub open spec fn cut_ok(root: Node, queue: Seq<Item>, work: Seq<Item>, d: Seq<Item>) -> bool {
-    all_terminal(d) && #[trigger] tsum(queue) + tsum(work) + tsum(d) == vf(root, 1real, 1real, 1real)
-}
 """
 UNIT = dict(
     id="c06_threshold_loop",
@@ -148,9 +184,9 @@ UNIT = dict(
     canary_use="broadcast use fl; broadcast use ideal; ax_obeys(); ax_rv_lits();",
     assumptions=[
         "idealised-real float mode for the reach products (as in c06_threshold_player_step)",
-        "the two expanding arms are replaced by calls carrying the contracts proved for their real text in c06_threshold_player_step (decision-node arm: one entry per action; chance arm: the closure mapped over what the infoset's next_nodes yields, Vec::extend/Map being std code); that the decision-node arm leaves the strategy tables untouched is part of the assumed call contract (the arm only reads `.strat`)",
+        "the two expanding arms are replaced by calls carrying the contracts proved for their real text in c06_threshold_player_step (decision-node arm: entries for a strictly increasing selection of the actions -- the contract vocabulary is imported from that unit; chance arm: the closure mapped over what the infoset's next_nodes yields, Vec::extend/Map being std code); that the decision-node arm leaves the strategy tables untouched is part of the assumed call contract (the arm only reads `.strat`)",
         "outcomes_of(chance): what ChanceRecurse::next_nodes yields for the node in the current pass is a function of the node (all outcomes, or the one outcome sampled for its infoset: C10), and they are children of the node",
-        "ax_additive: the functional the frontier is measured with is ANY uninterpreted functional that decomposes over the children the sequential traversal visits (this is the definition of the quantification, not a fact about the code)",
+        "ax_additive: the functional the frontier is measured with is ANY uninterpreted NON-NEGATIVE integer functional that decomposes over the children the sequential traversal visits (this is the definition of the quantification, not a fact about the code)",
         "std: Vec::len never exceeds isize::MAX / size_of::<T>() (documented allocation limit), used only for `queue.len() + work.len()` not to overflow; Vec::pop / push / is_empty / mem::swap by their vstd specifications",
         "termination of the loop is not proved (exec_allows_no_decreases_clause)",
         "NonZeroUsize restated as a struct with get()",
@@ -161,6 +197,7 @@ UNIT = dict(
         dict(file="src/lib.rs", path="struct Chance", pub_fields=True),
         dict(file="src/lib.rs", path="struct Player", pub_fields=True),
         dict(file="src/solve/vanilla.rs", path="struct MutexRegretInfoset"),
+        dict(raw=_PN + "\n" + _SEL),
         dict(raw=SPEC),
         dict(file="src/solve/vanilla.rs", path="fn thread_threshold",
              attrs="#[verifier::exec_allows_no_decreases_clause]",
@@ -179,15 +216,15 @@ UNIT = dict(
     old(queue)@.len() == 0, old(work)@.len() == 0,
     wf(*root, tabs(player_infosets)),
 ensures
-    // the frontier handed to the workers (queue and work) together with the terminals the expansion
-    // already passed is a CUT of the tree the sequential traversal visits, with the reach values of
-    // that traversal: every additive functional of the traversal has the same total over the cut as
-    // at the root -- no subtree is visited twice, none is lost
-    exists|d: Seq<Item>| cut_ok(*root, final(queue)@, final(work)@, d), // @ob C06.V.thread_threshold.frontier_is_a_cut""",
+    // what is handed to the workers (queue; work is discarded by the caller) are tasks of the tree the
+    // sequential traversal visits, with the reach values of that traversal, and NO part of the tree is
+    // in them twice (no entry twice, none below another): every non-negative additive functional of
+    // the traversal totals over the frontier to at most its value at the root. (Less is harmless:
+    // what is not in the frontier is traversed by the pass from the root.)
+    tsum(final(queue)@) + tsum(final(work)@) <= vf(*root, 1real, 1real, 1real), // @ob C06.V.thread_threshold.frontier_is_a_cut""",
              entry="""broadcast use fl; broadcast use ideal;
 proof { ax_obeys(); ax_rv_lits(); ax_additive(); }
-let ghost infos = tabs(player_infosets);
-let ghost mut dropped: Seq<Item> = Seq::empty();""",
+let ghost infos = tabs(player_infosets);""",
              loops={0: dict(kind="while",
                             before="""proof {
     let e0 = queue@.last();
@@ -196,30 +233,27 @@ let ghost mut dropped: Seq<Item> = Seq::empty();""",
     assert(e0.0 == root && rv(e0.1) == 1real && rv(e0.2[0]) == 1real && rv(e0.2[1]) == 1real);
     assert(tsum(Seq::<Item>::empty()) == 0);
     assert(tsum(work@) == 0);
-    assert(tsum(dropped) == 0);
     ax_vec_len(queue); ax_vec_len(work);
 }""",
                             head="""invariant
     infos == tabs(player_infosets),
-    all_wf(queue@, infos), all_wf(work@, infos), all_terminal(dropped),
+    all_wf(queue@, infos), all_wf(work@, infos),
     queue@.len() * 32 <= isize::MAX, work@.len() * 32 <= isize::MAX,
-    tsum(queue@) + tsum(work@) + tsum(dropped) == vf(*root, 1real, 1real, 1real), // @ob C06.V.thread_threshold.frontier_is_a_cut""",
+    tsum(queue@) + tsum(work@) <= vf(*root, 1real, 1real, 1real), // @ob C06.V.thread_threshold.frontier_is_a_cut""",
                             body_start="""broadcast use fl; broadcast use ideal;
 proof { ax_obeys(); ax_rv_lits(); ax_additive(); }
 let ghost q0 = queue@;
 let ghost w0 = work@;""",
                             body_end="""proof {
     ax_vec_len(queue); ax_vec_len(work);
+    lemma_tsum_nonneg(w0); lemma_tsum_nonneg(q0); lemma_tsum_nonneg(work@); lemma_tsum_nonneg(queue@);
     if q0.len() > 0 {
         let e = q0.last();
         lemma_tsum_pop(q0);
         assert(queue@ =~= q0.drop_last());
         assert(wf(*e.0, infos));
         match *e.0 {
-            Node::Terminal(_) => {
-                lemma_tsum_push(dropped, e);
-                dropped = dropped.push(e);
-            }
+            Node::Terminal(_) => { }
             Node::Chance(ch) => {
                 let n = outcomes_of(ch).len() as int;
                 let pc = rv(e.1); let p1 = rv(e.2[0]); let p2 = rv(e.2[1]);
@@ -240,10 +274,11 @@ let ghost w0 = work@;""",
                 let n = pl.actions@.len() as int;
                 let pc = rv(e.1); let p1 = rv(e.2[0]); let p2 = rv(e.2[1]);
                 let st = cur_strat(pl.num, pl.infoset as int);
+                let idx = choose|idx: Seq<int>| #[trigger] sel_ok(idx, n) && added_ok(w0, work@, idx, &pl, st, e.1, e.2);
                 assert forall|i: int| 0 <= i < work@.len() implies wf(*(#[trigger] work@[i]).0, infos) by {
                     if i < w0.len() { assert(work@[i] == work@.take(w0.len() as int)[i]); } else { assert(work@[i] == work@[w0.len() + (i - w0.len())]); }
                 }
-                lemma_tsum_ext(w0, work@, n,
+                lemma_tsum_sel(w0, work@, idx, n,
                     |k: int| match pl.num {
                         PlayerNum::One => vf(pl.actions@[k], pc, p1 * rv(st[k]), p2),
                         PlayerNum::Two => vf(pl.actions@[k], pc, p1, p2 * rv(st[k])),
@@ -254,7 +289,6 @@ let ghost w0 = work@;""",
     } else {
         assert(queue@ == w0 && work@ == q0);
     }
-}""",
-                            after="""proof { assert(cut_ok(*root, queue@, work@, dropped)); }""")}),
+}""")}),
     ],
 )
